@@ -750,7 +750,13 @@ class GroupCoordinator(BaseCoordinator):
         if self._heartbeat_task is not None:
             if not self._heartbeat_task.done():
                 self._heartbeat_task.cancel()
-                await self._heartbeat_task
+                # The routine only absorbs a cancellation that hits its
+                # heartbeat cycle. One that hits the LeaveGroup of an idle
+                # consumer ends the task as cancelled, which must not cancel
+                # the caller (the coordination routine) as well.
+                await asyncio.wait([self._heartbeat_task])
+                if not self._heartbeat_task.cancelled():
+                    self._heartbeat_task.result()
             self._heartbeat_task = None
 
     async def _heartbeat_routine(self):
